@@ -417,7 +417,7 @@ func (fr *frame) eval(ins ssa.Value) Value {
 	case *ssa.SliceToArrayPointer:
 		s := fr.get(x.X).(*SliceV)
 		n := deref(x.Type()).Underlying().(*types.Array).Len()
-		if !p.fork(p.F.BvUge(s.Len, p.F.BVConst64(uint64(n), 64))) {
+		if !p.forkLikely(p.F.BvUge(s.Len, p.F.BVConst64(uint64(n), 64))) {
 			p.gopanic("runtime error: cannot convert slice to array pointer: length too short")
 		}
 		if s.Obj == nil {
@@ -510,12 +510,12 @@ func (fr *frame) index(x *ssa.Index) Value {
 	switch b := base.(type) {
 	case *ArrayV:
 		n := len(b.E)
-		if !p.fork(p.F.BvUlt(idx, p.F.BVConst64(uint64(n), 64))) {
+		if !p.forkLikely(p.F.BvUlt(idx, p.F.BVConst64(uint64(n), 64))) {
 			p.gopanic("runtime error: index out of range")
 		}
 		return p.loadAt(b, []Sel{{Idx: idx}})
 	case StrV:
-		if !p.fork(p.F.BvUlt(idx, p.F.BVConst64(uint64(len(b)), 64))) {
+		if !p.forkLikely(p.F.BvUlt(idx, p.F.BVConst64(uint64(len(b)), 64))) {
 			p.gopanic("runtime error: index out of range")
 		}
 		if i, ok := p.idxConst(idx); ok {
@@ -528,7 +528,7 @@ func (fr *frame) index(x *ssa.Index) Value {
 		}
 		return res
 	case *SymStr:
-		if !p.fork(p.F.BvUlt(idx, p.F.BVConst64(uint64(len(b.B)), 64))) {
+		if !p.forkLikely(p.F.BvUlt(idx, p.F.BVConst64(uint64(len(b.B)), 64))) {
 			p.gopanic("runtime error: index out of range")
 		}
 		n := len(b.B)
@@ -561,7 +561,7 @@ func (fr *frame) indexAddr(x *ssa.IndexAddr) Value {
 	idx := p.toIndex(fr.get(x.Index), x.Index.Type())
 	switch b := base.(type) {
 	case *SliceV:
-		if !p.fork(p.F.BvUlt(idx, b.Len)) {
+		if !p.forkLikely(p.F.BvUlt(idx, b.Len)) {
 			p.gopanic("runtime error: index out of range")
 		}
 		return p.sliceElemPtr(b, idx)
@@ -570,7 +570,7 @@ func (fr *frame) indexAddr(x *ssa.IndexAddr) Value {
 			p.gopanic("runtime error: invalid memory address or nil pointer dereference")
 		}
 		n := deref(x.X.Type()).Underlying().(*types.Array).Len()
-		if !p.fork(p.F.BvUlt(idx, p.F.BVConst64(uint64(n), 64))) {
+		if !p.forkLikely(p.F.BvUlt(idx, p.F.BVConst64(uint64(n), 64))) {
 			p.gopanic("runtime error: index out of range")
 		}
 		return &Ptr{Obj: b.Obj, Path: extPath(b.Path, Sel{Idx: idx})}
@@ -586,13 +586,13 @@ func (fr *frame) makeSlice(x *ssa.MakeSlice) Value {
 	ln := p.toIndex(fr.get(x.Len), x.Len.Type())
 	cp := p.toIndex(fr.get(x.Cap), x.Cap.Type())
 	// Go: panics if len < 0 or len > cap or cap < 0
-	if !p.fork(p.F.BvUle(ln, cp)) {
+	if !p.forkLikely(p.F.BvUle(ln, cp)) {
 		p.gopanic("runtime error: makeslice: len out of range")
 	}
-	if !p.fork(p.F.BvSge(cp, p.F.BVConst64(0, 64))) {
+	if !p.forkLikely(p.F.BvSge(cp, p.F.BVConst64(0, 64))) {
 		p.gopanic("runtime error: makeslice: cap out of range")
 	}
-	if !p.fork(p.F.BvUle(cp, p.F.BVConst64(uint64(p.H.MaxAlloc), 64))) {
+	if !p.forkLikely(p.F.BvUle(cp, p.F.BVConst64(uint64(p.H.MaxAlloc), 64))) {
 		p.end("budget", "make() may exceed the harness allocation bound %d", p.H.MaxAlloc)
 	}
 	var c uint64
@@ -624,7 +624,7 @@ func (fr *frame) slice(x *ssa.Slice) Value {
 		mx = p.toIndex(fr.get(x.Max), x.Max.Type())
 	}
 	chk := func(c *term.T) {
-		if !p.fork(c) {
+		if !p.forkLikely(c) {
 			p.gopanic("runtime error: slice bounds out of range")
 		}
 	}
